@@ -22,8 +22,11 @@ error-site prefixes):
   c12:json-roundtrip  c12:initial-missing  c12:initial-priority  c12:key-id  c12:token-kind
   c12:target-undefined[:nested]  c12:jump-to-@join[:nested]  c12:args-shape:<rule>
   c12:initial-requires-arguments
-  c12:nav:unknown-passage:<jump-to-@join|other>  c12:nav:binding:<required-missing[:initial]|duplicate>
+  c12:nav:unknown-passage:<jump-to-@join|other>  c12:nav:binding:<required-missing[:initial]|duplicate|default-eval>
   c12:nav:malformed-spec  c12:nav:args-syntax  c12:nav:engine-construction:<ExceptionName>
+  (binding:default-eval: the default of a parameter that refers only to EARLIER parameters of the same passage and to
+   literals - the documented `:: Calc(x, y=x*2)` - could not be evaluated because such an earlier parameter was not in
+   scope; by then the engine has bound it, so this is the engine's binding, not author code)
 """
 from __future__ import annotations
 
@@ -31,6 +34,7 @@ import ast
 import copy
 import json
 import os
+import re
 
 from . import common as C
 from . import c11 as P
@@ -142,6 +146,43 @@ def has_join_jump(st):
     return any(kind == "jump" and target == "@join" for _, kind, _, target, _ in call_sites(st))
 
 
+DEFAULT_EVAL_SITE = re.compile(r"Error calling passage '(.+?)': Could not evaluate default for parameter '(.+?)': ")
+PURE_NODES = (ast.Expression, ast.BinOp, ast.UnaryOp, ast.BoolOp, ast.Compare, ast.IfExp, ast.Constant, ast.Name, ast.Tuple,
+              ast.List, ast.Set, ast.Dict, ast.Subscript, ast.Slice, ast.operator, ast.unaryop, ast.boolop, ast.cmpop,
+              ast.expr_context)
+
+
+def earlier_parameters_only(params, name):
+    """The names of the parameters before `name` when the default of `name` is built from those names and literals only
+    (operators, displays, subscripts, conditional expressions; no calls, attributes, other names); else None."""
+    names = [p["name"] for p in params]
+    if name not in names:
+        return None
+    k = names.index(name)
+    default = params[k].get("default")
+    if default is None:
+        return None
+    try:
+        tree = ast.parse(default.strip(), mode="eval")
+    except (SyntaxError, ValueError, RecursionError, MemoryError):
+        return None
+    earlier = set(names[:k])
+    for node in ast.walk(tree):
+        if not isinstance(node, PURE_NODES):
+            return None
+        if isinstance(node, ast.Name) and node.id not in earlier:
+            return None
+    return earlier
+
+
+def root_cause(e):
+    seen = 0
+    while (e.__cause__ or e.__context__) is not None and seen < 12:
+        e = e.__cause__ or e.__context__
+        seen += 1
+    return e
+
+
 def nav_signature(e, st, at_construction=False):
     """The C12 signature of an engine exception, or None when it is not a navigation error."""
     if not isinstance(e, ValueError):
@@ -156,6 +197,15 @@ def nav_signature(e, st, at_construction=False):
             init = st.get("initial_passage")
             at_start = at_construction and any(p.get("default") is None for p in st["passages"].get(init, {}).get("params", []) or [])
             return "nav:binding:required-missing" + (":initial" if at_start else "")
+        site = DEFAULT_EVAL_SITE.match(m)
+        if site:
+            # a default built from earlier parameters and literals only, failing because such a parameter is not in
+            # scope: the engine did not bind what it had already bound (any other failure of a default is author code)
+            params = st.get("passages", {}).get(site.group(1), {}).get("params", []) or []
+            earlier = earlier_parameters_only(params, site.group(2))
+            root = root_cause(e)
+            if earlier and isinstance(root, NameError) and getattr(root, "name", None) in earlier:
+                return "nav:binding:default-eval"
         return None                                  # a default expression failed: author code
     if m.startswith("Unclosed parenthesis in passage spec"):
         return "nav:malformed-spec"
@@ -236,6 +286,114 @@ class Player:
 
 
 # ------------------------------------------------------------------------------------------------
+# generator: passages whose defaults refer to earlier parameters, called in every accepted shape
+# ------------------------------------------------------------------------------------------------
+
+PARAM_NAMES = ["p", "q", "r", "s", "amount", "qty"]          # never the name of a global of the story
+DEFAULT_TEMPLATES = ["{a} * 2", "{a} + 1", "{a}+{b}", "[{a}, {b}]", "({a}, 1)", "{a} if {a} > 2 else 0", "-{a}", "{a} > 1",
+                     "{{'k': {a}}}", "{b} - {a}", "[{a}][0]", "{a}", "not {a}"]
+LITERAL_DEFAULTS = ["5", "0", "[1, 2]", "'s'", "None", "(2, 3)"]
+
+
+def gen_signature(rng, name):
+    """(name, [(param, default|None)]): some required parameters, then optional ones whose defaults mostly refer to
+    earlier parameters (one earlier, the previous one = a chain, or two earlier ones)."""
+    n = rng.randint(1, 4)
+    req = rng.randint(0, n - 1) if rng.random() < 0.85 else n
+    names = rng.sample(PARAM_NAMES, n)
+    params = []
+    for k, a in enumerate(names):
+        if k < req:
+            params.append((a, None))
+        elif k == 0 or rng.random() < 0.2:
+            params.append((a, rng.choice(LITERAL_DEFAULTS)))
+        else:
+            prev = names[k - 1] if rng.random() < 0.6 else rng.choice(names[:k])       # chained more often than not
+            other = rng.choice(names[:k])
+            params.append((a, rng.choice(DEFAULT_TEMPLATES).format(a=prev, b=other)))
+    return name, params
+
+
+def gen_call(rng, sig, exprs):
+    """An argument text the target accepts: k positional arguments, the remaining required parameters and a drawn subset
+    of the optional ones by keyword (in any order)."""
+    name, params = sig
+    n = len(params)
+    req = sum(1 for _, d in params if d is None)
+    k = rng.choice([0, req, req, rng.randint(0, n), n])
+    k = min(k, n)
+    pos = [rng.choice(exprs) for _ in range(k)]
+    kws = []
+    for a, d in params[k:]:
+        if d is None or rng.random() < 0.3:
+            kws.append(f"{a}={rng.choice(exprs)}")
+    rng.shuffle(kws)
+    args = ", ".join(pos + kws)
+    how = ("no-arguments" if not args else "positional" if not kws else "keyword" if not pos else "mixed") + \
+        ("+defaults-used" if k + len(kws) < n else "")
+    return (name + (f"({args})" if args or rng.random() < 0.5 else "")), how
+
+
+SITES = ["choice", "choice", "conditional-choice", "choice-in-if", "choice-in-for", "jump", "jump-in-if", "jump-in-for",
+         "jump-in-join-block", "choice-from-parameterised-passage", "jump-from-parameterised-passage"]
+
+
+def gen_default_chain_story(rng, stats):
+    sigs = [gen_signature(rng, nm) for nm in rng.sample(["Calc", "Chain", "Shop", "Mix", "Deep"], rng.randint(2, 4))]
+    ints = ["1", "3", "7", "base", "base + 1", "2 * 3"]
+    out = [":: Start", "~ base = 3", "The hub."]
+    hubs = []
+    n_sites = rng.randint(4, 8)
+    for k in range(n_sites):
+        site = rng.choice(SITES)
+        sig = rng.choice(sigs)
+        call, how = gen_call(rng, sig, ints)
+        stats["sites"][site] = stats["sites"].get(site, 0) + 1
+        stats["call_forms"][how] = stats["call_forms"].get(how, 0) + 1
+        for a, d in sig[1]:
+            if d is not None and any(x in d for x, _ in sig[1] if x != a):
+                stats["defaults_referring_to_earlier_parameters"] += 1
+        if site == "choice":
+            out.append(f"+ [Call {k}] -> {call}")
+        elif site == "conditional-choice":
+            out.append(f"* {{base > 1}} [Call {k}] -> {call}")
+        elif site == "choice-in-if":
+            out += ["@if base:", f"    + [Call {k}] -> {call}", "@endif"]
+        elif site == "choice-in-for":
+            out += ["@for i in [1]:", f"+ [Call {k} {{i}}] -> {call}", "@endfor"]
+        else:
+            hub = f"Hub{k}"
+            out.append(f"+ [Via {hub}] -> {hub}")
+            if site == "jump":
+                hubs.append([f":: {hub}", "Passing through.", f"-> {call}"])
+            elif site == "jump-in-if":
+                hubs.append([f":: {hub}", "@if base > 1:", f"-> {call}", "@else:", "-> Start", "@endif"])
+            elif site == "jump-in-for":
+                hubs.append([f":: {hub}", "@for i in [1, 2]:", f"  -> {call}", "@endfor"])
+            elif site == "jump-in-join-block":
+                hubs.append([f":: {hub}", "+ [Wait] -> @join", f"    -> {call}", "+ [Back] -> Start", "@join", "Joined."])
+            else:
+                # the caller has parameters of its own and passes them on (arguments evaluated in its local scope)
+                csig = gen_signature(rng, hub)
+                locs = [a for a, _ in csig[1]] + ["1"]
+                call2, how2 = gen_call(rng, sig, locs)
+                stats["call_forms"][how2 + ":from-parameters"] = stats["call_forms"].get(how2 + ":from-parameters", 0) + 1
+                ccall, _ = gen_call(rng, csig, ints)
+                out[-1] = f"+ [Via {hub}] -> {ccall}"
+                hdr = ":: " + hub + "(" + ", ".join(a if d is None else f"{a}={d}" for a, d in csig[1]) + ")"
+                if site.startswith("choice"):
+                    hubs.append([hdr, "Here.", f"+ [On] -> {call2}", "+ [Back] -> Start"])
+                else:
+                    hubs.append([hdr, "Here.", f"-> {call2}"])
+    for h in hubs:
+        out += [""] + h
+    for name, params in sigs:
+        out += ["", ":: " + name + "(" + ", ".join(a if d is None else f"{a}={d}" for a, d in params) + ")",
+                "In " + name + ": " + " ".join("{" + a + "}" for a, _ in params), "+ [Back] -> Start"]
+    return out
+
+
+# ------------------------------------------------------------------------------------------------
 # pinned probes (shapes expected to break C12; re-run on every check)
 # ------------------------------------------------------------------------------------------------
 
@@ -247,6 +405,9 @@ PINNED = [
     ("call-body-not-a-call", ":: A\n-> T(\"(\") + (\")\")\n:: T(x)\nhi"),
     ("nested-dangling-target", ":: Start\n@for i in [1]:\n  @if i:\n    -> Nowhere\n  @endif\n@endfor"),
     ("nested-bad-arity", ":: Start\n@if True:\n+ [go] -> T(1, 2, 3)\n@endif\n:: T(x)\nhi"),
+    ("default-refers-to-earlier-parameter", ":: Start\n+ [Pos] -> Calc(3)\n+ [Kw] -> Calc(x=3)\n+ [Chain] -> Chain(1)\n"
+     "+ [Own default] -> All\n+ [Jump] -> Hub\n:: Hub\n-> Calc(4)\n:: Calc(x, y=x*2)\n{x} {y}\n:: Chain(a, b=a+1, c=b*2)\n"
+     "{a} {b} {c}\n:: All(u=1, v=u+1)\n{u} {v}"),
 ]
 
 
@@ -262,11 +423,20 @@ def run(tier: str, seed: int) -> int:
     quick = tier == "quick"
     n_lines, n_engine, n_mut_per_file, depth, cap, n_walks, walk_len = \
         (450, 90, 3, MAX_DEPTH_QUICK, 60, 4, 12) if quick else (4000, 900, 25, MAX_DEPTH_THOROUGH, 400, 20, 40)
+    n_defaults, matrix_share = (120, 0.12) if quick else (1200, 1.0)
     dist = {"families": {}, "outcomes": {}, "accepted": {}, "call_sites": {"choice": 0, "jump": 0, "nested": 0, "with-args": 0,
                                                                            "to-@join": 0},
             "play": {"stories": 0, "paths": 0, "engine_steps": 0, "timeouts": 0, "capped_stories": 0, "other_exceptions": {}}}
 
     inputs = [("pinned:" + n, t.split("\n")) for n, t in PINNED]
+    dstats = {"stories": n_defaults, "sites": {}, "call_forms": {}, "defaults_referring_to_earlier_parameters": 0}
+    for _ in range(n_defaults):
+        inputs.append(("generated-default-chains", gen_default_chain_story(rng, dstats)))
+    # the call-shape matrix of C11 (parameters x argument shapes x call sites): what the compiler accepts of it must
+    # bind at play time
+    for fam, ls, _cmp in P.call_matrix(rng, quick):
+        if rng.random() < matrix_share:
+            inputs.append(("call-shape-matrix", ls))
     for _ in range(n_lines):
         inputs.append(("generated-lines", P.gen_story_lines(rng, blocks=True)))
     prof = G.Profile(faults=0.0)
@@ -309,7 +479,8 @@ def run(tier: str, seed: int) -> int:
                 seen.add(rule)
                 chk.report(f"c12:{rule}", what, replay)
         # ---- (b) ----
-        if fam in ("generated-playable", "generated-lines") or fam.startswith("pinned:") or fam == "repo-file":
+        if fam in ("generated-playable", "generated-lines", "generated-default-chains", "call-shape-matrix") or \
+                fam.startswith("pinned:") or fam == "repo-file":
             pl = Player(st, dist["play"])
             dist["play"]["stories"] += 1
             dist["play"]["paths"] += pl.exhaustive(depth if fam != "repo-file" else min(depth, 3), cap)
@@ -321,6 +492,8 @@ def run(tier: str, seed: int) -> int:
         # ---- (c) ----
         if pr.used - P.ALLOWED_CONSTRUCTS or not C.is_ascii(text) or max(len(l) for l in ls) > P.MAX_MODEL_LINE:
             continue
+        if fam == "call-shape-matrix":
+            continue                                  # compared with the model by C11 (same generator)
         try:
             pterms.append(P.pcase_term(ls, pr, oc))
             pmeta.append({"family": fam, "source": text})
@@ -344,12 +517,18 @@ def run(tier: str, seed: int) -> int:
     chk.cov["disagreements_found"] = n_dis
     chk.cov["rule"] = ("one case = one source text; non-trivial = the real compiler accepted it (only accepted stories are "
                        "subject to C12); distinct = by source text")
+    dist["default_chains"] = dict(dstats, family=(
+        "passages with 1-4 parameters whose defaults refer to earlier parameters (the previous one = chains, any earlier "
+        "one, two of them; arithmetic, displays, conditional expressions) or are literals, called with k positional "
+        "arguments, by keyword, mixed, relying on defaults, from choices (plain, conditional, in @if/@for), jumps (plain, in "
+        "@if/@for, in a join block) and from passages that pass their own parameters on"))
     chk.notes["input_distribution"] = dist
     chk.notes["play_bounds"] = {"exhaustive_depth": depth, "paths_per_story_cap": cap, "random_walks": n_walks,
                                 "walk_length": walk_len}
     chk.assumptions = [
         "argument VALUES are author code: an argument or default expression that raises at run time is not a C12 violation; "
-        "shapes (count, names, required) are",
+        "shapes (count, names, required) are - and so is a default built from earlier parameters and literals only that "
+        "fails with a NameError for such a parameter (the engine has bound it by then)",
         "call sites with *args / **kwargs are not shape-checked statically",
         "model tie restricted to ASCII sources; play restricted to generated stories and the repository's own files",
     ]
